@@ -896,8 +896,11 @@ def write_evidence(ctx, P):
                           'compiler, libstdc++, sanitizer runtimes and the Linux kernel behave as documented']}
     if not has_proof:
         cov['explanation'] = 'no Coq theorem for this property is registered yet in coq/Properties_%s.v; this run is the correspondence + spec judgement only' % ctx.pid
-    os.makedirs(os.path.join(VERIF, 'evidence'), exist_ok=True)
-    json.dump(ev, open(os.path.join(VERIF, 'evidence', '%s.json' % ctx.pid), 'w'), indent=1)
+    # debugging runs (--no-proof) and runs against a scratch copy (VERIF_REPO) must not overwrite the real evidence
+    scratch = getattr(ctx, 'no_proof', False) or ('VERIF_REPO' in os.environ and os.environ['VERIF_REPO'] != '/repo')
+    d = os.path.join(VERIF, 'work', 'evidence-scratch') if scratch else os.path.join(VERIF, 'evidence')
+    os.makedirs(d, exist_ok=True)
+    json.dump(ev, open(os.path.join(d, '%s.json' % ctx.pid), 'w'), indent=1)
 
 def replay(ctx, P, path):
     r = json.load(open(path))
@@ -923,23 +926,30 @@ def replay(ctx, P, path):
 TOOLS = ['xcdat_build', 'xcdat_lookup', 'xcdat_decode', 'xcdat_prefix_search', 'xcdat_predictive_search', 'xcdat_enumerate']
 
 def build_tools():
+    import fcntl, glob, shutil, concurrent.futures as cf
     core.ensure_dirs()
     key = core.sha(core.tree_hash([os.path.join(core.REPO, 'include'), os.path.join(core.REPO, 'tools')]))[:16]
     d = os.path.join(core.WORK, 'bin', 'tools-' + key)
-    if os.path.isdir(d) and all(os.path.exists(os.path.join(d, t)) for t in TOOLS):
+    def ready():
+        return os.path.isdir(d) and all(os.path.exists(os.path.join(d, t)) for t in TOOLS)
+    if ready():
         return d
-    import glob, shutil, concurrent.futures as cf
-    for old in glob.glob(os.path.join(core.WORK, 'bin', 'tools-*')):
-        shutil.rmtree(old, ignore_errors=True)
-    os.makedirs(d, exist_ok=True)
-    def one(t):
-        cmd = ['g++', '-std=c++17', '-O2', '-DNDEBUG', '-pthread', core.GUARD, '-I', os.path.join(core.REPO, 'include'),
-               '-I', os.path.join(core.REPO, 'tools'), os.path.join(core.REPO, 'tools', t + '.cpp'), '-o', os.path.join(d, t)]
-        p = subprocess.run(cmd, stdout=subprocess.PIPE, stderr=subprocess.STDOUT, text=True)
-        if p.returncode != 0:
-            raise RuntimeError('tool build failed: %s\n%s' % (t, p.stdout[-2000:]))
-    with cf.ThreadPoolExecutor(max_workers=6) as ex:
-        list(ex.map(one, TOOLS))
+    with open(os.path.join(core.WORK, 'bin', '.lock-tools'), 'w') as lk:
+        fcntl.flock(lk, fcntl.LOCK_EX)
+        if ready():
+            return d
+        for old in sorted(glob.glob(os.path.join(core.WORK, 'bin', 'tools-*')), key=os.path.getmtime)[:-2]:
+            shutil.rmtree(old, ignore_errors=True)
+        os.makedirs(d, exist_ok=True)
+        def one(t):
+            cmd = ['g++', '-std=c++17', '-O2', '-DNDEBUG', '-pthread', core.GUARD, '-I', os.path.join(core.REPO, 'include'),
+                   '-I', os.path.join(core.REPO, 'tools'), os.path.join(core.REPO, 'tools', t + '.cpp'), '-o', os.path.join(d, t + '.tmp')]
+            p = subprocess.run(cmd, stdout=subprocess.PIPE, stderr=subprocess.STDOUT, text=True)
+            if p.returncode != 0:
+                raise RuntimeError('tool build failed: %s\n%s' % (t, p.stdout[-2000:]))
+            os.rename(os.path.join(d, t + '.tmp'), os.path.join(d, t))
+        with cf.ThreadPoolExecutor(max_workers=6) as ex:
+            list(ex.map(one, TOOLS))
     return d
 
 def key_files(ctx):
